@@ -54,7 +54,8 @@ Definition run_loop_tr_erase_stmt : Prop := forall norm maxc fuel p scripts serv
    buffer bound (C01's hypotheses) *)
 Definition creq_fits (B : N) (c : creq) (pairs : list (bytes * bytes)) : Prop :=
   Forall pair_ok pairs /\ nv_write_all pairs = Some (preamble_payload (c_pre c)) /\
-  Forall (pair_fits (aligned_bufsize B)) pairs /\ preamble_fits (aligned_bufsize B) (c_pre c).
+  Forall (pair_fits (aligned_bufsize B)) pairs /\ preamble_fits (aligned_bufsize B) (c_pre c) /\
+  Forall (gv_fits (aligned_bufsize B)) (c_srs c).     (* unread stream-section records become junk before the next request *)
 
 Definition sent_request (norm : bytes -> bytes) (c : creq) (pairs : list (bytes * bytes)) : req :=
   mkReq (w_id (c_pre c)) (w_role (c_pre c)) (w_flags (c_pre c)) (env_log norm pairs).
